@@ -38,6 +38,24 @@ CHECKS = [
              "by enumerating every table row and locating the break point of the second draw equal rate/total to 1e-12, total "
              "rate equals fsum, zero-rate cells never selected.",
      "note": "Trusted: scripted random substitution. Rates restricted to 0 or [1e-9,1e9] with positive sum."},
+    {"id": "C02", "engine": "hypothesis-runner", "design_ref": "DESIGN.md §3 C02",
+     "technique": "property-based testing (Hypothesis) with a forward oracle: cumulative uphill energy evaluated at the returned point (bracketing), contact equation + convexity for hard cores",
+     "text": "Generated (potential, parameters, separation per geometric branch incl. head-on/tangential/on the minimum sphere, "
+             "direction, speed, charges, budget incl. branch-boundary and denormal budgets): the returned displacement must bracket "
+             "the first-passage point of the independently computed cumulative uphill energy within 1e-9, be infinite exactly when "
+             "the path never accumulates the budget, and never raise / be NaN / be negative beyond rounding. Hard spheres/dipoles: "
+             "contact equation and no earlier contact.",
+     "note": "Trusted: vlib/oracles/uphill.py and energies.py (written from docstrings). Identity range = budgets >= 1e-6 of the "
+             "largest |U| at the start/turning points; below that only totality and sign are asserted. CellBoundingPotential "
+             "(constant-rate bound) is exercised through C04/C18 handlers, not here."},
+    {"id": "C03", "engine": "hypothesis-runner", "design_ref": "DESIGN.md §3 C03",
+     "technique": "property-based testing (Hypothesis): differential against independently written energy gradients and an independent Ewald sum (different alpha/cut-offs), metamorphic relations, finite differences for bending",
+     "text": "Generated separations (bulk, faces, edges, corners, origin, axes, tangential), directions, charges, speeds, box lengths: "
+             "derivative equals speed*c1c2*(-dU/ds_d) of the model energy to 1e-10; lattice sum agrees with an independent Ewald "
+             "implementation (alpha=2.6) and is odd/even/face-periodic/permutation-covariant/alpha-independent/copy-stable; bending "
+             "derivatives sum to zero and match central differences.",
+     "note": "Trusted: vlib/oracles/energies.py, ewald.py (numpy/scipy erfc; self-checked at start-up). Lattice periodicity is probed "
+             "across faces only: the C sum is truncated around a minimum-image separation by design."},
 ]
 
 _ALL = ["C%02d" % i for i in range(1, 21)]
